@@ -46,18 +46,18 @@ func dumpDiffs(d diffSource) diffLists {
 	var out diffLists
 	for _, x := range d.SiacoinElementDiffs() {
 		e := x.SiacoinElement
-		out.sc = append(out.sc, fmt.Sprintf("%x %s %d c=%v s=%v", e.ID[:8], hexOf(chain.Encode(types.V2SiacoinOutput(e.SiacoinOutput))), e.MaturityHeight, x.Created, x.Spent))
+		out.sc = append(out.sc, fmt.Sprintf("%x %s %d c=%v s=%v leaf=%d", e.ID[:8], hexOf(chain.Encode(types.V2SiacoinOutput(e.SiacoinOutput))), e.MaturityHeight, x.Created, x.Spent, e.StateElement.LeafIndex))
 	}
 	for _, x := range d.SiafundElementDiffs() {
 		e := x.SiafundElement
-		out.sf = append(out.sf, fmt.Sprintf("%x %s %s c=%v s=%v", e.ID[:8], hexOf(chain.Encode(types.V2SiafundOutput(e.SiafundOutput))), e.ClaimStart.ExactString(), x.Created, x.Spent))
+		out.sf = append(out.sf, fmt.Sprintf("%x %s %s c=%v s=%v leaf=%d", e.ID[:8], hexOf(chain.Encode(types.V2SiafundOutput(e.SiafundOutput))), e.ClaimStart.ExactString(), x.Created, x.Spent, e.StateElement.LeafIndex))
 	}
 	for _, x := range d.FileContractElementDiffs() {
 		rev := "-"
 		if x.Revision != nil {
 			rev = hexOf(chain.Encode(*x.Revision))
 		}
-		out.fc = append(out.fc, fmt.Sprintf("%x %s c=%v res=%v valid=%v rev=%s", x.FileContractElement.ID[:8], hexOf(chain.Encode(x.FileContractElement.FileContract)), x.Created, x.Resolved, x.Valid, rev))
+		out.fc = append(out.fc, fmt.Sprintf("%x %s c=%v res=%v valid=%v rev=%s leaf=%d", x.FileContractElement.ID[:8], hexOf(chain.Encode(x.FileContractElement.FileContract)), x.Created, x.Resolved, x.Valid, rev, x.FileContractElement.StateElement.LeafIndex))
 	}
 	for _, x := range d.V2FileContractElementDiffs() {
 		rev := "-"
@@ -68,7 +68,7 @@ func dumpDiffs(d diffSource) diffLists {
 		if x.Resolution != nil {
 			res = fmt.Sprintf("%T", x.Resolution)
 		}
-		out.v2 = append(out.v2, fmt.Sprintf("%x %s c=%v res=%s rev=%s", x.V2FileContractElement.ID[:8], hexOf(chain.Encode(x.V2FileContractElement.V2FileContract)), x.Created, res, rev))
+		out.v2 = append(out.v2, fmt.Sprintf("%x %s c=%v res=%s rev=%s leaf=%d", x.V2FileContractElement.ID[:8], hexOf(chain.Encode(x.V2FileContractElement.V2FileContract)), x.Created, res, rev, x.V2FileContractElement.StateElement.LeafIndex))
 	}
 	return out
 }
